@@ -52,6 +52,10 @@ def make_graph(kinds, edges):
     return nodes
 
 
+class TooBig(Exception):
+    """shared substructure legitimately prints in full every time: the expansion of a dense DAG can be huge - such graphs are skipped"""
+
+
 def reference(obj, path, stats):
     if isinstance(obj, (int, str)):
         return repr(obj)
@@ -60,6 +64,8 @@ def reference(obj, path, stats):
         return '<Recursion on %s with id=%d>' % (type(obj).__name__, id(obj))
     path.add(id(obj))
     stats['containers'] += 1
+    if stats['containers'] > 20000:
+        raise TooBig()
     try:
         if isinstance(obj, list):
             return '[' + ','.join(reference(c, path, stats) for c in obj) + ']'
@@ -116,7 +122,11 @@ def install_tracer():
 def check_graph(sh, root, desc, width, n_objects, other=None):
     case = {'graph': desc, 'width': width}
     stats = {'markers': 0, 'containers': 0}
-    want = reference(root, set(), stats)
+    try:
+        want = reference(root, set(), stats)
+    except TooBig:
+        sh.counters['graphs skipped: expansion larger than 20000 containers'] += 1
+        return None
     budget = 60 * (stats['containers'] + n_objects + 20) * 3
     TR.sizes = []
     try:
@@ -282,3 +292,4 @@ TECHNIQUE = 'runtime oracle (reference DFS on the live object graph) + offline t
 LEVEL_TEXT = ('All rooted multigraphs up to 3 nodes / 3 ordered edges (thorough 4/4, sampled 1:5 at 4 nodes) over three container kinds and random graphs up to 12 nodes with shared acyclic parts are printed; '
               'the recursion markers must be exactly the back-edges of a reference DFS, and every visited-set operation of the real context is logged and checked offline.')
 LEVEL_NOTE = 'Termination is restated as an event budget per call; container kinds limited to list/dict/tuple (+ set/frozenset/atoms as acyclic sharers).'
+ANCHORS = ['prettyprinter.PrettyContext.start_visit', 'prettyprinter.PrettyContext.end_visit', 'prettyprinter.PrettyContext.is_visited', 'prettyprinter._pretty_recursion', 'prettyprinter._run_pretty']
